@@ -1235,3 +1235,40 @@ package pongo2
 //@   ensures {C01,C08} @nil-means-nothing-valid-behind-it r0 == (RVKind(Resolved(v.val)) == 0)
 //@ extern reflect.ValueOf(i) (r0)
 //@   ensures typeis(i, "*any") ==> RVKind(r0) == 22
+
+// ---- escaping filters (C17): the real code is the reference composition of library calls ----
+// escape: the five replacements, ampersand first (so that the ampersands of the other entities are not escaped again)
+//@ func filterEscape
+//@   at strings.Replace#0 requires {C17} @ampersand-first arg0 == VString(in) && arg1 == "&" && arg2 == "&amp;" && arg3 == -1
+//@   at strings.Replace#1 requires {C17} @greater-than arg0 == lastresult("strings.Replace") && arg1 == ">" && arg2 == "&gt;" && arg3 == -1
+//@   at strings.Replace#2 requires {C17} @less-than arg0 == lastresult("strings.Replace") && arg1 == "<" && arg2 == "&lt;" && arg3 == -1
+//@   at strings.Replace#3 requires {C17} @double-quote arg0 == lastresult("strings.Replace") && arg1 == "\"" && arg2 == "&quot;" && arg3 == -1
+//@   at strings.Replace#4 requires {C17} @single-quote arg0 == lastresult("strings.Replace") && arg1 == "'" && arg2 == "&#39;" && arg3 == -1
+//@   at AsValue requires {C17,C02} @result-is-the-last-replacement-and-not-marked-safe typeis(arg0, "string") && unbox(arg0, "string") == lastresult("strings.Replace")
+//@   ensures {C17} @never-fails r1 == nil && r0 == lastresult("AsValue")
+//@   ensures {C17} @exactly-five-replacements calls("strings.Replace") == 5
+// addslashes: backslash first, then the two quotes
+//@ func filterAddslashes
+//@   at strings.Replace#0 requires {C17} @backslash-first arg0 == VString(in) && arg1 == "\\" && arg2 == "\\\\" && arg3 == -1
+//@   at strings.Replace#1 requires {C17} @double-quote arg0 == lastresult("strings.Replace") && arg1 == "\"" && arg2 == "\\\"" && arg3 == -1
+//@   at strings.Replace#2 requires {C17} @single-quote arg0 == lastresult("strings.Replace") && arg1 == "'" && arg2 == "\\'" && arg3 == -1
+//@   at AsValue requires {C17} @result-is-the-last-replacement typeis(arg0, "string") && unbox(arg0, "string") == lastresult("strings.Replace")
+//@   ensures {C17} @exactly-three-replacements calls("strings.Replace") == 3 && r1 == nil && r0 == lastresult("AsValue")
+//@ func filterSafe
+//@   ensures {C17} @input-unchanged r0 == in && r1 == nil
+//@ func filterUrlencode
+//@   at url.QueryEscape requires {C17} @whole-input arg0 == VString(in)
+//@   at AsValue requires {C17} @result-of-the-query-escape typeis(arg0, "string") && unbox(arg0, "string") == lastresult("url.QueryEscape")
+// escapejs: letters, space and slash are copied, everything else becomes \uXXXX of that very character
+//@ func filterEscapejs
+//@   at (*bytes.Buffer).WriteRune requires {C17} @only-letters-space-and-slash-are-copied arg1 == c && ((97 <= c && c <= 122) || (65 <= c && c <= 90) || c == 32 || c == 47)
+//@   at fmt.Sprintf#2 requires {C17} @everything-else-as-its-code-point arg0 == "\\u%04X" && len(arg1) == 1 && typeis(arg1[0], "rune") && unbox(arg1[0], "rune") == c
+//@   at fmt.Sprintf#0 requires {C17} @each-escape-stands-for-one-input-character-r !(c == 92 && strat(sin, idx + 1) == 114)
+//@   at fmt.Sprintf#1 requires {C17} @each-escape-stands-for-one-input-character-n !(c == 92 && strat(sin, idx + 1) == 110)
+//@   invariant 0 {C17} @position-in-range 0 <= idx && idx <= len(sin)
+//@   at utf8.DecodeRuneInString requires {C17} @decodes-at-the-current-position arg0 == substr(sin, idx, len(sin)) && sin == VString(in)
+// iriencode: characters of the IRI set are copied, every other character is query-escaped on its own
+//@ func filterIriencode
+//@   at (*bytes.Buffer).WriteRune requires {C17} @only-iri-characters-are-copied arg1 == r && lastresult("strings.ContainsRune")
+//@   at url.QueryEscape requires {C17} @other-characters-one-by-one !lastresult("strings.ContainsRune")
+//@   at strings.ContainsRune requires {C17} @membership-in-the-iri-set arg0 == filterIRIChars && arg1 == r
